@@ -1,5 +1,12 @@
 (* C15: counting deliveries of an emission during which a consumer edits the graph (ORemit).
-   Every forwarding node hands what it receives to each child whose edge exists before and after the step. *)
+   Every forwarding node hands what it receives to each child whose edge exists before and after the step.
+   The loop of Stream._emit walks the snapshot of the downstream set it took when it started, but before each
+   hand-over it tests `downstream not in self.downstreams` on the CURRENT graph: a child detached before it was served
+   is skipped; a child attached during the emission is not in the snapshot of the running loop and is served only by
+   the emissions that start later.  Consequently no update of a combining node is ever handed an element by a node
+   that is not among its inputs: such an emission never raises (reentrant_never_raises), and the untouched siblings
+   get the element in flight whatever the edit was (reentrant_untouched_sibling, without any "it returned"
+   hypothesis). *)
 From Coq Require Import List ZArith Bool Lia Arith Relations.
 From SZ Require Import Base.Values Sync.Topology Sync.TopologyProofs.
 Import ListNotations.
@@ -226,6 +233,8 @@ Qed.
 (* the emission during which a reactive sink edits the graph                                         *)
 (* ================================================================================================ *)
 
+(* (the raised flag is kept in the model, faithful to the update methods that would raise for a non-input; it is
+   never set in a legal history, see reentrant_never_raises below) *)
 Lemma rfold_raised f n x : forall l g p la, fold_left (rstep f n x) l (g, p, true, la) = (g, p, true, la).
 Proof. induction l as [|d l IH]; intros; cbn [fold_left]; auto. unfold rstep at 2. apply IH. Qed.
 
@@ -310,7 +319,16 @@ Proof.
             cnt_edge P c la + cnt_to P (la ++ [(n, d, x)]) + b2n ((n =? P) && (d =? c))).
   { intros Kd. rewrite !cnt_edge_app, !cnt_to_app, cnt_edge_one, cnt_to_one.
     destruct (d =? P) eqn:EP; [apply Nat.eqb_eq in EP; subst; congruence|]. simpl. lia. }
-  unfold rstep in E. destruct (tk (tget ga d)) eqn:K.
+  unfold rstep in E.
+  destruct (negb (mem d (t_downs (tget ga n)))) eqn:G.
+  { (* d was detached since the snapshot: skipped; then (n, d) is not the edge (P, c), which exists in ga *)
+    inversion E; subst.
+    assert (Z : (n =? P) && (d =? c) = false).
+    { destruct (n =? P) eqn:EP; auto. destruct (d =? c) eqn:Ec; auto.
+      apply Nat.eqb_eq in EP. apply Nat.eqb_eq in Ec. subst.
+      apply negb_true_iff in G. apply mem_false in G. contradiction. }
+    rewrite Z. simpl. lia. }
+  destruct (tk (tget ga d)) eqn:K.
   - (* pipe *)
     destruct (rdeliver f ga pa d x) as [[[g2 p2] r2] l2] eqn:E2. inversion E; subst.
     apply (REC ga x l2); auto using frame_refl.
@@ -404,14 +422,116 @@ Proof.
     + unfold occ in H. rewrite EP in H. simpl. lia.
 Qed.
 
-(* ---- headline: the siblings the edit does not touch get the element in flight ---- *)
-Theorem reentrant_untouched_sibling g n x t e g' log :
-  reachable g -> wf_op g (ORemit n x t e) -> tstep g (ORemit n x t e) = (g', ROk, log) ->
+(* ---- such an emission never raises: a child is handed the element only when it is among the CURRENT downstreams
+        of the emitting node, and links are consistent at both ends in every intermediate graph, so the update of a
+        zip / combine_latest node always finds the emitting node among its inputs ---- *)
+Definition rnspec (f : nat) : Prop :=
+  forall g p n x g' p' r log, TInv0 g -> pend_ok g p -> alive g n ->
+  rdeliver f g p n x = (g', p', r, log) -> r = false.
+
+Lemma rnever_step f n x ga pa la d g1 p1 r1 l1 :
+  rnspec f -> TInv0 ga -> pend_ok ga pa -> alive ga n ->
+  rstep f n x (ga, pa, false, la) d = (g1, p1, r1, l1) -> r1 = false.
+Proof.
+  intros IH I Pd An E. unfold rstep in E.
+  destruct (negb (mem d (t_downs (tget ga n)))) eqn:G; [inversion E; auto|].
+  apply negb_false_iff in G. apply mem_spec in G.
+  destruct (s_down _ (i_shape _ I) _ _ An G) as (Ad & Hup).
+  assert (REC : forall gb y g2 p2 r2 l2, frame ga gb -> TInv0 gb -> rdeliver f gb pa d y = (g2, p2, r2, l2) ->
+            r2 = false).
+  { intros gb y g2 p2 r2 l2 Fb Ib E2. apply (IH gb pa d y g2 p2 r2 l2); auto.
+    - eapply pend_ok_frame; eauto.
+    - apply (fr_alive_iff _ _ _ Fb); auto. }
+  destruct (tk (tget ga d)) eqn:K.
+  - (* pipe *)
+    destruct (rdeliver f ga pa d x) as [[[g2 p2] r2] l2] eqn:E2. inversion E; subst.
+    apply (REC ga x g1 p1 r1 l2); auto using frame_refl.
+  - inversion E; auto.
+  - (* zip: n is one of the keys of the buffers *)
+    assert (M : In n (map fst (t_bufs (tget ga d)))).
+    { destruct (i_data _ I d Ad) as (_ & Hz). destruct (Hz K) as (_ & Hk). apply (proj2 (Hk n)). exact Hup. }
+    pose proof M as Mb. apply mem_spec in Mb. rewrite Mb in E.
+    destruct ((length (buf_get n (t_bufs (tget ga d)) ++ [x]) =? 1) &&
+              zip_ready (with_bufs (tget ga d) (buf_set n (buf_get n (t_bufs (tget ga d)) ++ [x]) (t_bufs (tget ga d))))) eqn:C.
+    + pose proof (zip_fire_inv ga d n x I K M C) as Ib. cbv zeta in Ib.
+      match type of E with context [rdeliver f ?gg pa d ?tt] =>
+        destruct (rdeliver f gg pa d tt) as [[[g2 p2] r2] l2] eqn:E2 end.
+      inversion E; subst.
+      refine (REC _ _ _ _ _ _ _ Ib E2). apply frame_tset. unfold same_shape; simpl; auto 10.
+    + inversion E; auto.
+  - (* combine_latest: n is one of the inputs *)
+    pose proof Hup as Mb. apply mem_spec in Mb. rewrite Mb in E.
+    assert (KC : is_comb (tk (tget ga d)) = true) by (rewrite K; reflexivity).
+    pose proof (combine_take_inv ga d n x I KC) as Ib. cbv zeta in Ib.
+    destruct (all_some_v (set_at (index_nat n (t_ups (tget ga d))) (Some x) (t_last (tget ga d)))) as [vs|].
+    + match type of E with context [rdeliver f ?gg pa d ?tt] =>
+        destruct (rdeliver f gg pa d tt) as [[[g2 p2] r2] l2] eqn:E2 end.
+      inversion E; subst.
+      refine (REC _ _ _ _ _ _ _ Ib E2). apply frame_tset. unfold same_shape; simpl; auto 10.
+    + inversion E; auto.
+  - (* reactive sink *)
+    destruct pa as [[t e]|]; [|inversion E; auto].
+    destruct (t =? d); [|inversion E; auto].
+    destruct (apply_edit ga e) as [[g2 r2] l2]. inversion E; auto.
+  - (* combine_latest with an explicit emit_on *)
+    pose proof Hup as Mb. apply mem_spec in Mb. rewrite Mb in E.
+    assert (KC : is_comb (tk (tget ga d)) = true) by (rewrite K; reflexivity).
+    pose proof (combine_take_inv ga d n x I KC) as Ib. cbv zeta in Ib.
+    destruct (all_some_v (set_at (index_nat n (t_ups (tget ga d))) (Some x) (t_last (tget ga d)))) as [vs|];
+      [destruct (n =? trig)|].
+    + match type of E with context [rdeliver f ?gg pa d ?tt] =>
+        destruct (rdeliver f gg pa d tt) as [[[g2 p2] r2] l2] eqn:E2 end.
+      inversion E; subst.
+      refine (REC _ _ _ _ _ _ _ Ib E2). apply frame_tset. unfold same_shape; simpl; auto 10.
+    + inversion E; auto.
+    + inversion E; auto.
+Qed.
+
+Lemma rnever_fold f n x : rnspec f -> forall l ga pa la g' p' r' l',
+  TInv0 ga -> pend_ok ga pa -> alive ga n ->
+  fold_left (rstep f n x) l (ga, pa, false, la) = (g', p', r', l') -> r' = false.
+Proof.
+  intros IH. induction l as [|d l IHl]; intros ga pa la g' p' r' l' I Pd An E; cbn [fold_left] in E.
+  - inversion E; auto.
+  - destruct (rstep f n x (ga, pa, false, la) d) as [[[g1 p1] r1] l1] eqn:E1.
+    assert (R1 : r1 = false) by (eapply rnever_step; eauto). subst r1.
+    destruct (rstep_spec _ _ _ _ _ _ _ _ _ _ _ _ (rdeliver_rspec f) I Pd E1) as (I1 & P1 & Ev1).
+    apply (IHl g1 p1 l1 g' p' r' l'); auto. eapply evolve_alive; eauto.
+Qed.
+
+Lemma rdeliver_rnspec : forall f, rnspec f.
+Proof.
+  induction f as [|f IH]; intros g p n x g' p' r log I Pd An E.
+  - simpl in E. inversion E; auto.
+  - rewrite rdeliver_S in E. eapply rnever_fold; eauto.
+Qed.
+
+(* for any fuel, any graph satisfying the invariant and any legal pending edit *)
+Theorem reentrant_never_raises f g p n x g' p' r log :
+  TInv0 g -> pend_ok g p -> alive g n -> rdeliver f g p n x = (g', p', r, log) -> r = false.
+Proof. apply rdeliver_rnspec. Qed.
+
+Corollary reentrant_step_never_raises g n x t e g' r log :
+  reachable g -> wf_op g (ORemit n x t e) -> tstep g (ORemit n x t e) = (g', r, log) -> r = ROk.
+Proof.
+  intros R W E. pose proof (reachable_inv g R) as I.
+  destruct W as ((_ & An & _) & _ & _ & We & _).
+  unfold tstep in E. rewrite tstep0_remit in E.
+  destruct (rdeliver (S (length g)) g (Some (t, e)) n x) as [[[g1 p1] r1] l] eqn:E1.
+  inversion E; subst.
+  rewrite (reentrant_never_raises _ g (Some (t, e)) n x g1 p1 r1 log I We An E1). reflexivity.
+Qed.
+
+(* ---- headline: the siblings the edit does not touch get the element in flight, whatever the edit was (no
+        hypothesis on the result of the step: it is ROk by reentrant_step_never_raises) ---- *)
+Theorem reentrant_untouched_sibling g n x t e g' r log :
+  reachable g -> wf_op g (ORemit n x t e) -> tstep g (ORemit n x t e) = (g', r, log) ->
   forall P c, tk (tget g P) = TPipe ->
     In c (t_downs (tget g P)) -> t_alive (tget g' P) = true -> In c (t_downs (tget g' P)) ->
     cnt_edge P c log = cnt_to P log + b2n (n =? P).
 Proof.
   intros R W E P c KP Hc AP Hc'. pose proof (reachable_inv g R) as I.
+  pose proof (reentrant_step_never_raises g n x t e g' r log R W E) as Rk. subst r.
   destruct W as ((_ & An & _) & _ & _ & We & _).
   unfold tstep in E. rewrite tstep0_remit in E.
   destruct (rdeliver (S (length g)) g (Some (t, e)) n x) as [[[g1 p1] r] l] eqn:E1.
@@ -448,8 +568,9 @@ Theorem reentrant_links_consistent g n x t e :
   (forall u d, t_alive (tget g' u) = true -> In d (t_downs (tget g' u)) -> u < d).
 Proof. intros R W. apply links_consistent. apply reachable_step; auto. Qed.
 
-(* also at the moment the step ends but before anything is collected: the graph the emission leaves behind, whether
-   it returned or raised, satisfies the whole invariant (links at both ends, per-input state aligned, no zip wedged) *)
+(* also at the moment the step ends but before anything is collected: the graph the emission leaves behind satisfies
+   the whole invariant (links at both ends, per-input state aligned, no zip wedged); stated for any value of the
+   flag r, which is always false (reentrant_never_raises) *)
 Theorem reentrant_raw_invariant g n x t e g' p' r log :
   reachable g -> wf_op g (ORemit n x t e) ->
   rdeliver (S (length g)) g (Some (t, e)) n x = (g', p', r, log) -> TInv0 g'.
@@ -469,6 +590,93 @@ Proof.
   intros R W g1 W1 E. apply (dropped_branch_silent g1 m y g2 r log); auto. apply reachable_step; auto.
 Qed.
 
+(* ---- when nobody edits the graph the test `downstream not in self.downstreams` is vacuous: a re-entrant delivery
+        without a pending edit is the plain emission (same final graph, same deliveries, nothing raised) ---- *)
+Definition rpspec (f : nat) : Prop :=
+  forall g n x g' l, TInv0 g -> alive g n -> temit f g n x = (g', l) -> rdeliver f g None n x = (g', None, false, l).
+
+Lemma evolve_none_frame g g' p' : evolve g None g' p' -> frame g g'.
+Proof. intros [E F|t e g1 E]; [auto|discriminate]. Qed.
+
+Lemma rplain_step f n x ga la d g1 l1 :
+  rpspec f -> TInv0 ga -> alive ga n -> In d (t_downs (tget ga n)) ->
+  estep f n x (ga, la) d = (g1, l1) -> rstep f n x (ga, None, false, la) d = (g1, None, false, l1).
+Proof.
+  intros IH I An Hin E.
+  destruct (s_down _ (i_shape _ I) _ _ An Hin) as (Ad & Hup).
+  pose proof Hin as G. apply mem_spec in G.
+  assert (REC : forall gb y g2 l2, frame ga gb -> TInv0 gb -> temit f gb d y = (g2, l2) ->
+            rdeliver f gb None d y = (g2, None, false, l2)).
+  { intros gb y g2 l2 Fb Ib E2. apply IH; auto. apply (fr_alive_iff _ _ _ Fb); auto. }
+  unfold estep in E. unfold rstep. rewrite G. cbn [negb].
+  destruct (tk (tget ga d)) eqn:K.
+  - destruct (temit f ga d x) as [g2 l2] eqn:E2. inversion E; subst.
+    rewrite (REC ga x g1 l2 (frame_refl _) I E2). reflexivity.
+  - inversion E; subst. reflexivity.
+  - assert (M : In n (map fst (t_bufs (tget ga d)))).
+    { destruct (i_data _ I d Ad) as (_ & Hz). destruct (Hz K) as (_ & Hk). apply (proj2 (Hk n)). exact Hup. }
+    pose proof M as Mb. apply mem_spec in Mb. rewrite Mb.
+    destruct ((length (buf_get n (t_bufs (tget ga d)) ++ [x]) =? 1) &&
+              zip_ready (with_bufs (tget ga d) (buf_set n (buf_get n (t_bufs (tget ga d)) ++ [x]) (t_bufs (tget ga d))))) eqn:C.
+    + pose proof (zip_fire_inv ga d n x I K M C) as Ib. cbv zeta in Ib.
+      match type of E with (let '(_, _) := temit f ?gg d ?tt in _) = _ => destruct (temit f gg d tt) as [g2 l2] eqn:E2 end.
+      inversion E; subst.
+      match type of E2 with temit f ?gg _ _ = _ => assert (Fb : frame ga gg) end.
+      { apply frame_tset. unfold same_shape; simpl; auto 10. }
+      rewrite (REC _ _ _ _ Fb Ib E2). reflexivity.
+    + inversion E; subst. reflexivity.
+  - pose proof Hup as Mb. apply mem_spec in Mb. rewrite Mb.
+    assert (KC : is_comb (tk (tget ga d)) = true) by (rewrite K; reflexivity).
+    pose proof (combine_take_inv ga d n x I KC) as Ib. cbv zeta in Ib.
+    destruct (all_some_v (set_at (index_nat n (t_ups (tget ga d))) (Some x) (t_last (tget ga d)))) as [vs|].
+    + match type of E with (let '(_, _) := temit f ?gg d ?tt in _) = _ => destruct (temit f gg d tt) as [g2 l2] eqn:E2 end.
+      inversion E; subst.
+      match type of E2 with temit f ?gg _ _ = _ => assert (Fb : frame ga gg) end.
+      { apply frame_tset. unfold same_shape; simpl; auto 10. }
+      rewrite (REC _ _ _ _ Fb Ib E2). reflexivity.
+    + inversion E; subst. reflexivity.
+  - inversion E; subst. reflexivity.
+  - pose proof Hup as Mb. apply mem_spec in Mb. rewrite Mb.
+    assert (KC : is_comb (tk (tget ga d)) = true) by (rewrite K; reflexivity).
+    pose proof (combine_take_inv ga d n x I KC) as Ib. cbv zeta in Ib.
+    destruct (all_some_v (set_at (index_nat n (t_ups (tget ga d))) (Some x) (t_last (tget ga d)))) as [vs|];
+      [destruct (n =? trig)|].
+    + match type of E with (let '(_, _) := temit f ?gg d ?tt in _) = _ => destruct (temit f gg d tt) as [g2 l2] eqn:E2 end.
+      inversion E; subst.
+      match type of E2 with temit f ?gg _ _ = _ => assert (Fb : frame ga gg) end.
+      { apply frame_tset. unfold same_shape; simpl; auto 10. }
+      rewrite (REC _ _ _ _ Fb Ib E2). reflexivity.
+    + inversion E; subst. reflexivity.
+    + inversion E; subst. reflexivity.
+Qed.
+
+Lemma rplain_fold f n x : rpspec f -> forall l ga la g' l',
+  TInv0 ga -> alive ga n -> (forall d, In d l -> In d (t_downs (tget ga n))) ->
+  fold_left (estep f n x) l (ga, la) = (g', l') ->
+  fold_left (rstep f n x) l (ga, None, false, la) = (g', None, false, l').
+Proof.
+  intros IH. induction l as [|d l IHl]; intros ga la g' l' I An Hl E; cbn [fold_left] in *.
+  - inversion E; subst. reflexivity.
+  - destruct (estep f n x (ga, la) d) as [g1 l1] eqn:E1.
+    pose proof (rplain_step _ _ _ _ _ _ _ _ IH I An (Hl d (or_introl eq_refl)) E1) as R1. rewrite R1.
+    destruct (rstep_spec f n x ga None false la d g1 None false l1 (rdeliver_rspec f) I Logic.I R1) as (I1 & _ & Ev1).
+    pose proof (evolve_none_frame _ _ _ Ev1) as F1.
+    apply IHl; auto.
+    + apply (fr_alive_iff _ _ _ F1); auto.
+    + intros d' Hd'. rewrite (fr_downs _ _ _ F1). apply Hl. right; auto.
+Qed.
+
+Lemma rdeliver_rpspec : forall f, rpspec f.
+Proof.
+  induction f as [|f IH]; intros g n x g' l I An E.
+  - simpl in *. inversion E; subst. reflexivity.
+  - rewrite temit_S in E. rewrite rdeliver_S. apply rplain_fold; auto.
+Qed.
+
+Theorem reentrant_without_edit_is_plain_emit f g n x g' l :
+  TInv0 g -> alive g n -> temit f g n x = (g', l) -> rdeliver f g None n x = (g', None, false, l).
+Proof. apply rdeliver_rpspec. Qed.
+
 (* ---- non-vacuity: a legal history with two edits made from inside a callback ---- *)
 Definition c15r_ops : list top :=
   [ ONew TPipe []; ONew TPipe [0];                          (* 0 source, 1 the parent *)
@@ -476,8 +684,9 @@ Definition c15r_ops : list top :=
     ONew TPipe []; ONew TSink [6];                          (* 6 -> 7: a detached branch *)
     ORemit 0 (VInt 1%Z) 2 (EConnect 4 6);                   (* 2 connects 4 -> 6 while 1 is still handing out 1:
                                                                the _emit of 4 starts afterwards and serves 6 *)
-    ORemit 0 (VInt 2%Z) 2 (EDisconnect 1 3);                (* 2 detaches its sibling 3: the running loop of 1 still
-                                                               serves 3 (snapshot), 4 is untouched *)
+    ORemit 0 (VInt 2%Z) 2 (EDisconnect 1 3);                (* 2 detaches its sibling 3: the running loop of 1 finds
+                                                               3 no longer among its downstreams and skips it, 4 is
+                                                               untouched and served *)
     OEmit 0 (VInt 3%Z) ].                                   (* follows the new topology: 3 gets nothing *)
 
 Example c15_reentrant_nonvacuous :
@@ -485,8 +694,8 @@ Example c15_reentrant_nonvacuous :
   map (fun o => (to_raised o, to_deliv o)) (skipn 8 (trun [] c15r_ops)) =
     [ (false, [(0, 1, VInt 1%Z); (1, 2, VInt 1%Z); (1, 3, VInt 1%Z); (1, 4, VInt 1%Z); (4, 5, VInt 1%Z);
                (4, 6, VInt 1%Z); (6, 7, VInt 1%Z)]);
-      (false, [(0, 1, VInt 2%Z); (1, 2, VInt 2%Z); (1, 3, VInt 2%Z); (1, 4, VInt 2%Z); (4, 5, VInt 2%Z);
-               (4, 6, VInt 2%Z); (6, 7, VInt 2%Z)]);
+      (false, [(0, 1, VInt 2%Z); (1, 2, VInt 2%Z); (1, 4, VInt 2%Z); (4, 5, VInt 2%Z); (4, 6, VInt 2%Z);
+               (6, 7, VInt 2%Z)]);
       (false, [(0, 1, VInt 3%Z); (1, 2, VInt 3%Z); (1, 4, VInt 3%Z); (4, 5, VInt 3%Z); (4, 6, VInt 3%Z);
                (6, 7, VInt 3%Z)]) ] /\
   links_of (run_ops [] c15r_ops) =
@@ -504,8 +713,8 @@ Example c15_reentrant_sibling_nonvacuous :
   exists g' log, tstep g (ORemit 0 (VInt 2%Z) 2 (EDisconnect 1 3)) = (g', ROk, log) /\
     tk (tget g 1) = TPipe /\ In 4 (t_downs (tget g 1)) /\ t_alive (tget g' 1) = true /\ In 4 (t_downs (tget g' 1)) /\
     cnt_edge 1 4 log = 1 /\ cnt_to 1 log = 1 /\
-    (* the detached sibling was still served from the snapshot *)
-    In 3 (t_downs (tget g 1)) /\ ~ In 3 (t_downs (tget g' 1)) /\ cnt_edge 1 3 log = 1.
+    (* the detached sibling is skipped: it was in the snapshot but is no longer a downstream when its turn comes *)
+    In 3 (t_downs (tget g 1)) /\ ~ In 3 (t_downs (tget g' 1)) /\ cnt_edge 1 3 log = 0.
 Proof.
   cbv zeta. split.
   - exists (firstn 9 c15r_ops). split; auto. apply legalb_sound. vm_compute. reflexivity.
@@ -514,27 +723,31 @@ Proof.
     vm_compute. repeat split; auto. intros [H|[H|[]]]; discriminate.
 Qed.
 
-(* ---- without "the emission returned" the sibling statement is FALSE of the faithful model: a combining node
-        detached by the edit is still served from the running loop's snapshot, its update raises (zip:
-        self.buffers[who], combine_latest: self.upstreams.index(who)), the emission unwinds and the siblings that
-        come later - whose edges nobody touched - never see the element ---- *)
+(* ---- the history that was the witness of the defect "detached-input-still-served": the reactive sink 2 detaches the
+        zip node 3 from the emitting node 0 while 0 is still handing out the element.  Before the repair the running
+        loop served 3 from its snapshot, the update of the zip raised (self.buffers[who] KeyError), the emission
+        unwound and the late sibling 5 - whose edge nobody touched - never saw the element (the sibling statement
+        was false without "the emission returned").  With the test `downstream not in self.downstreams` the detached
+        zip is skipped: the step returns, 3 is not handed the element and 5 gets it ---- *)
 Definition c15r_bad_ops : list top :=
   [ ONew TPipe []; ONew TPipe []; ONew TRSink [0]; ONew TZip [0; 1]; ONew TSink [3]; ONew TSink [0] ].
 
-Theorem reentrant_untouched_sibling_refuted :
-  exists ops n x t e P c,
-    legal [] ops /\
-    let g := run_ops [] ops in
-    wf_op g (ORemit n x t e) /\
-    exists g' log, tstep g (ORemit n x t e) = (g', RRaise, log) /\
-      tk (tget g P) = TPipe /\ In c (t_downs (tget g P)) /\ t_alive (tget g' P) = true /\ In c (t_downs (tget g' P)) /\
-      cnt_edge P c log = 0 /\ cnt_to P log + b2n (n =? P) = 1.
+Theorem reentrant_detached_combiner_not_served :
+  legal [] c15r_bad_ops /\
+  let g := run_ops [] c15r_bad_ops in
+  wf_op g (ORemit 0 (VInt 2%Z) 2 (EDisconnect 0 3)) /\
+  exists g' log, tstep g (ORemit 0 (VInt 2%Z) 2 (EDisconnect 0 3)) = (g', ROk, log) /\
+    tk (tget g 0) = TPipe /\ tk (tget g 3) = TZip /\
+    In 3 (t_downs (tget g 0)) /\ ~ In 3 (t_downs (tget g' 0)) /\             (* the zip was a child, and is detached *)
+    In 5 (t_downs (tget g 0)) /\ t_alive (tget g' 0) = true /\ In 5 (t_downs (tget g' 0)) /\   (* 5 is untouched *)
+    log = [(0, 2, VInt 2%Z); (0, 5, VInt 2%Z)] /\
+    cnt_edge 0 3 log = 0 /\                                                   (* the detached zip is NOT served *)
+    cnt_edge 0 5 log = 1 /\ cnt_to 0 log + b2n (0 =? 0) = 1.                  (* the late sibling IS served *)
 Proof.
-  exists c15r_bad_ops, 0, (VInt 2%Z), 2, (EDisconnect 0 3), 0, 5.
   split; [apply legalb_sound; vm_compute; reflexivity|]. cbv zeta.
   split; [apply wf_opb_sound; vm_compute; reflexivity|].
   eexists. eexists. split; [vm_compute; reflexivity|].
-  vm_compute. repeat split; auto.
+  vm_compute. repeat split; auto. intros [H|[H|[]]]; discriminate.
 Qed.
 
 (* ================================================================================================ *)
@@ -695,6 +908,7 @@ Lemma rtrig_step f n x ga pa ra la d g1 p1 r1 l1 :
   trig_ok (fun z => tk (tget ga z)) (Some n) l1.
 Proof.
   intros IH I Pd Ha E. unfold rstep in E. destruct ra; [inversion E; subst; auto|].
+  destruct (negb (mem d (t_downs (tget ga n)))); [inversion E; subst; auto|].
   assert (REC : forall gb y g2 p2 r2 l2, frame ga gb -> TInv0 gb -> rdeliver f gb pa d y = (g2, p2, r2, l2) ->
             (forall t, tk (tget ga d) = TCombineOn t -> n = t) ->
             trig_ok (fun z => tk (tget ga z)) (Some n) ((la ++ [(n, d, x)]) ++ l2)).
@@ -817,13 +1031,16 @@ Proof.
   split; [apply legalb_sound; vm_compute; reflexivity|]. split; vm_compute; reflexivity.
 Qed.
 
+Print Assumptions reentrant_never_raises.
+Print Assumptions reentrant_step_never_raises.
 Print Assumptions reentrant_untouched_sibling.
 Print Assumptions emit_forwarded_to_every_child.
 Print Assumptions reentrant_links_consistent.
 Print Assumptions reentrant_raw_invariant.
 Print Assumptions reentrant_next_emit_follows_new_topology.
+Print Assumptions reentrant_without_edit_is_plain_emit.
 Print Assumptions c15_reentrant_nonvacuous.
 Print Assumptions c15_reentrant_sibling_nonvacuous.
-Print Assumptions reentrant_untouched_sibling_refuted.
+Print Assumptions reentrant_detached_combiner_not_served.
 Print Assumptions emit_on_only_when_triggered.
 Print Assumptions c15_emit_on_nonvacuous.
